@@ -206,4 +206,88 @@ theorem gotRoutes_served (rs : List Route) (hwf : ∀ r ∈ rs, r.Wf) (c : Clien
   simp only [hgr, Bool.not_true, Bool.false_eq_true, ↓reduceIte, hopt, hnets, bind, Except.bind,
     fwStart_ascii _ _ _ tail hall, pure, Except.pure, planServed]
 
+/-! ### the specification's table lines, one by one -/
+
+theorem advOf_of_advertise {tool : Tool} {l : Bytes} {r : Option Route} (h : advertise tool l = .ok r) :
+    advOf tool l = r := by
+  simp [advOf, h]
+
+theorem advOf_ipLine (l : IpLine) (h : l.Wf) : advOf .iproute l.bytes = l.net.map toRoute := by
+  cases l with
+  | route d rest => exact advOf_of_advertise (advertise_iproute_prefix d h.1 rest h.2)
+  | other ws w rest =>
+    obtain ⟨hws, hw, hns, hr⟩ := h
+    exact advOf_iproute_noslash ws w rest hws hw hr hns
+  | blank l => exact advOf_blank _ l h
+  | garbled l => exact advOf_nonascii _ l h
+
+theorem advOf_nsLine (l : NsLine) (h : l.Wf) : advOf .netstat l.bytes = l.net.map toRoute := by
+  cases l with
+  | linux a b c d n s1 gw s2 rest =>
+    obtain ⟨ha, hb, hc, hd, hn, hs1, hs2, hgw, hr⟩ := h
+    exact advOf_of_advertise (advertise_netstat_linux a b c d n ha hb hc hd hn s1 s2 gw rest hs1 hs2 hgw hr)
+  | bsd d s1 gw s2 fl rest =>
+    obtain ⟨hd, hs1, hs2, hgw, hfl, hne, hr⟩ := h
+    exact advOf_of_advertise (advertise_netstat_bsd d hd s1 s2 gw fl rest hs1 hs2 hgw hfl hne hr)
+  | heading ws c t rest =>
+    obtain ⟨hws, hw, hc, hne, hr⟩ := h
+    exact advOf_netstat_heading ws rest c t hws hw hr hc hne
+  | blank l => exact advOf_blank _ l h
+  | garbled l => exact advOf_nonascii _ l h
+
+theorem filterMap_table {α : Type} (bytes : α → Bytes) (net : α → Option (Nat × Nat)) (tool : Tool) :
+    ∀ table : List α, (∀ l ∈ table, advOf tool (bytes l) = (net l).map toRoute) →
+      (table.map bytes).filterMap (advOf tool) = (table.filterMap net).map toRoute := by
+  intro table
+  induction table with
+  | nil => intro _; rfl
+  | cons l ls ih =>
+    intro h
+    have hl := h l (by simp)
+    have := ih (fun x hx => h x (by simp [hx]))
+    simp only [List.map_cons, List.filterMap_cons, hl]
+    cases net l with
+    | none => simpa using this
+    | some p => simpa using this
+
+theorem listRoutes_ipTable (table : List IpLine) (hwf : ∀ l ∈ table, l.Wf) :
+    listRoutes .iproute (table.map IpLine.bytes) = .ok (ipRoutes table) := by
+  rw [listRoutes_linewise, filterMap_table IpLine.bytes IpLine.net .iproute table (fun l hl => advOf_ipLine l (hwf l hl))]
+  rfl
+
+theorem listRoutes_nsTable (table : List NsLine) (hwf : ∀ l ∈ table, l.Wf) :
+    listRoutes .netstat (table.map NsLine.bytes) = .ok (nsRoutes table) := by
+  rw [listRoutes_linewise, filterMap_table NsLine.bytes NsLine.net .netstat table (fun l hl => advOf_nsLine l (hwf l hl))]
+  rfl
+
+theorem ipRoutes_wf (table : List IpLine) (hwf : ∀ l ∈ table, l.Wf) : ∀ r ∈ ipRoutes table, r.Wf := by
+  obtain ⟨rs, hrs, h⟩ := listRoutes_total .iproute (table.map IpLine.bytes)
+  rw [listRoutes_ipTable table hwf] at hrs
+  cases hrs; exact h
+
+theorem nsRoutes_wf (table : List NsLine) (hwf : ∀ l ∈ table, l.Wf) : ∀ r ∈ nsRoutes table, r.Wf := by
+  obtain ⟨rs, hrs, h⟩ := listRoutes_total .netstat (table.map NsLine.bytes)
+  rw [listRoutes_nsTable table hwf] at hrs
+  cases hrs; exact h
+
+theorem filterMap_replicate {α β : Type} (f : α → Option β) (x : α) (y : β) (h : f x = some y) :
+    ∀ n, (List.replicate n x).filterMap f = List.replicate n y := by
+  intro n
+  induction n with
+  | zero => rfl
+  | succ n ih => simp [List.replicate_succ, h, ih]
+
+/-- bare host destination text is one word without `/` -/
+theorem host_word (a b c d : Nat) (ha : a < 256) (hb : b < 256) (hc : c < 256) (hd : d < 256) :
+    Word (octText [a, b, c, d]) ∧ 47 ∉ octText [a, b, c, d] := by
+  have ho : ∀ x ∈ [a, b, c, d], x < 256 := by
+    intro x hx; simp only [List.mem_cons, List.not_mem_nil, or_false] at hx
+    rcases hx with rfl | rfl | rfl | rfl <;> assumption
+  have hcol := column_octText a [b, c, d] ho
+  refine ⟨⟨hcol.1, fun x hx => (hcol.2 x hx).2⟩, ?_⟩
+  intro h47
+  rcases octText_chars [a, b, c, d] ho 47 h47 with h | h
+  · exact absurd h (by decide)
+  · exact absurd h (by decide)
+
 end Sshuttle.Routes
